@@ -72,9 +72,6 @@ def r8_partial_type_hints(P, rep, ctx):
     va = fi.node.args.vararg.arg if fi.node.args.vararg else None
     if va is None:
         raise AnalysisError("C14.R8: make_typehint has no *args")
-    opt = f.tests("is_optional(__h)")
-    if not opt:
-        raise AnalysisError("C14.R8: is_optional test of make_typehint not found")
     n = 0
     for i, c, b in f.call_sites("__h.copy_with(__a)"):
         # value of the argument on the Optional branch, per path
